@@ -40,7 +40,8 @@ def run(ctx, rep):
         rec = re.search(r'get_dependencies_from_type\s*\(\s*&?\s*\*?\s*parameter\b', g_arm['body']) or re.search(r'for\s+(\w+)\s+in\s+parameters[^{]*\{[^}]*get_dependencies_from_type\s*\(\s*&?\s*\1\b', g_arm['body'])
         rep.check(bool(rec), 'G1', 'get_dependencies_from_type:RustType::Generic:parameters', 'generic arguments traversed as types',
                   "get_dependencies_from_type inspects generic arguments by name only (`parameter.id()` looked up in the item table) instead of recursing into them as types: references nested inside a generic argument (Page<Vec<Item>>, Wrapper<Option<Item>>) create no ordering edge", {'file': f['file'], 'line': g_arm['line']})
-        nested_under_lookup = re.search(r'if let Some\s*\(\s*\w+\s*\)\s*=\s*types\s*\.\s*get\s*\(\s*id\s*\)\s*\{.*for\s+\w+\s+in\s+parameters', g_arm['body'], re.S)
+        ploops = [l for l in f['loops'] if l.get('kind') == 'for' and vt.show(l['over']).endswith('parameters')]
+        nested_under_lookup = any(any(fr.get('k') == 'if' and isinstance(fr['c'], dict) and fr['c'].get('k') == 'iflet' and 'types.get' in vt.show(fr['c']['scrut']) for fr in l['guard']) for l in ploops) or not ploops
         rep.check(not nested_under_lookup, 'G1', 'get_dependencies_from_type:RustType::Generic:parameters-unconditional', 'arguments visited regardless of the base type',
                   "generic arguments are only inspected when the generic type itself is a typeshared item of this file (`if let Some(..) = types.get(id)` encloses the loop): `Foreign<Item>` / a type-mapped generic yields no edge to Item", {'file': f['file'], 'line': g_arm['line']})
     # G2 item dispatch
